@@ -1,10 +1,3 @@
 package main
 
-import (
-	"go/ast"
-	"go/token"
-)
-
-func schedRewrite(fset *token.FileSet, f *ast.File) error { return nil }
-
 func selftest(args []string) {}
